@@ -311,7 +311,7 @@ theorem splitPieces_core (c : Annotation) :
   simp [splitPieces, core]
 
 theorem pieceDiffs_core (E : Env) (c : Annotation) (hiso : c.isotope = none) (hst : c.static = none) :
-    pieceDiffs E (splitPieces (core c)) = .ok ((List.range c.seq.length).map fun i => sumAt E c.internal (i : ℕ)) := by
+    pieceDiffs E (splitPieces (core c)) = .ok ((List.range c.seq.length).map fun i : ℕ => sumAt E c.internal (i : ℕ)) := by
   rw [splitPieces_core]
   exact pieceDiffs_map E _ _ _ (fun i _ => pieceDiff_core E c i hiso hst)
 
@@ -319,7 +319,7 @@ theorem pieceDiffs_core (E : Env) (c : Annotation) (hiso : c.isotope = none) (hs
 def InRange (c : Annotation) : Prop := ∀ q ∈ c.internal.getD [], 0 ≤ q.1 ∧ q.1 < (c.seq.length : Int)
 
 theorem listSum_indicator (n : ℕ) (k : Int) (x : ℚ) (h0 : 0 ≤ k) (h1 : k < (n : Int)) :
-    listSum ((List.range n).map fun j => if k = (j : Int) then x else 0) = x := by
+    listSum ((List.range n).map fun j : ℕ => if k = (j : Int) then x else 0) = x := by
   induction n with
   | zero => omega
   | succ n ih =>
@@ -331,8 +331,8 @@ theorem listSum_indicator (n : ℕ) (k : Int) (x : ℚ) (h0 : 0 ≤ k) (h1 : k <
     rw [happ]
     by_cases hk : k = (n : Int)
     · subst hk
-      have hz : listSum ((List.range n).map fun j => if ((n : ℕ) : Int) = (j : Int) then x else 0) = 0 := by
-        have : ∀ l : List ℕ, (∀ j ∈ l, j < n) → listSum (l.map fun j => if ((n : ℕ) : Int) = (j : Int) then x else 0) = 0 := by
+      have hz : listSum ((List.range n).map fun j : ℕ => if ((n : ℕ) : Int) = (j : Int) then x else 0) = 0 := by
+        have : ∀ l : List ℕ, (∀ j ∈ l, j < n) → listSum (l.map fun j : ℕ => if ((n : ℕ) : Int) = (j : Int) then x else 0) = 0 := by
           intro l hl
           induction l with
           | nil => rfl
@@ -342,7 +342,7 @@ theorem listSum_indicator (n : ℕ) (k : Int) (x : ℚ) (h0 : 0 ≤ k) (h1 : k <
             simp only [List.map_cons, listSum, if_neg this, zero_add]
             exact ihl (fun j' hj' => hl j' (by simp [hj']))
         exact this _ (fun j hj => List.mem_range.mp hj)
-      simp [hz, listSum]
+      rw [hz]; simp [listSum]
     · have hlt : k < (n : Int) := by push_cast at h1; omega
       rw [ih hlt]
       simp [listSum, hk]
@@ -354,13 +354,13 @@ theorem listSum_add_map (l : List ℕ) (f g : ℕ → ℚ) :
   | cons x l ih => simp only [List.map_cons, listSum, ih]; ring
 
 theorem listSum_sumAt (E : Env) (n : ℕ) (d : List (Int × List Mod)) (h : ∀ q ∈ d, 0 ≤ q.1 ∧ q.1 < (n : Int)) :
-    listSum ((List.range n).map fun j => sumAt E (some d) (j : ℕ)) = sumInternal E d := by
+    listSum ((List.range n).map fun j : ℕ => sumAt E (some d) (j : ℕ)) = sumInternal E d := by
   induction d with
   | nil =>
-    have : ∀ l : List ℕ, listSum (l.map fun j => sumAt E (some []) (j : ℕ)) = 0 := by
+    have : ∀ l : List ℕ, listSum (l.map fun j : ℕ => sumAt E (some []) (j : ℕ)) = 0 := by
       intro l; induction l with
       | nil => rfl
-      | cons x l ih => simp [listSum, sumAt, sumInternal, ih]
+      | cons x l ih => simp only [List.map_cons, listSum, ih]; simp [sumAt, sumInternal]
     simp [this, sumInternal]
   | cons q d ih =>
     have hq := h q (by simp)
@@ -376,13 +376,13 @@ theorem listSum_sumAt (E : Env) (n : ℕ) (d : List (Int × List Mod)) (h : ∀ 
     simp [sumInternal]
 
 theorem listSum_sumAt_opt (E : Env) (c : Annotation) (h : InRange c) :
-    listSum ((List.range c.seq.length).map fun j => sumAt E c.internal (j : ℕ)) = optInt E c.internal := by
+    listSum ((List.range c.seq.length).map fun j : ℕ => sumAt E c.internal (j : ℕ)) = optInt E c.internal := by
   cases hi : c.internal with
   | none =>
-    have : ∀ l : List ℕ, listSum (l.map fun j => sumAt E none (j : ℕ)) = 0 := by
+    have : ∀ l : List ℕ, listSum (l.map fun j : ℕ => sumAt E none (j : ℕ)) = 0 := by
       intro l; induction l with
       | nil => rfl
-      | cons x l ih => simp [listSum, sumAt, ih]
+      | cons x l ih => simp only [List.map_cons, listSum, ih]; simp [sumAt]
     simp [this, optInt]
   | some d =>
     have hd : ∀ q ∈ d, 0 ≤ q.1 ∧ q.1 < (c.seq.length : Int) := by
@@ -392,7 +392,7 @@ theorem listSum_sumAt_opt (E : Env) (c : Annotation) (h : InRange c) :
 
 /-! ### the sums written for termini, labile, unknown-position and interval modifications -/
 
-theorem intSum_eq (E : Env) (p : ℕ) (hn : NumericMu E p) (l : List Mod) (h : allInt l = true) :
+theorem intSum_eq (E : Env) (hn : ∀ i : ℤ, E.mu (.int i) = i) (l : List Mod) (h : allInt l = true) :
     ((intSum l : ℤ) : ℚ) = sumMods E l := by
   induction l with
   | nil => simp [intSum, sumMods]
@@ -401,16 +401,16 @@ theorem intSum_eq (E : Env) (p : ℕ) (hn : NumericMu E p) (l : List Mod) (h : a
     have hl : allInt l = true := h.2
     cases hv : m.val with
     | int i =>
-      simp only [intSum, sumMods, modMass, hv, hn.int, ← ih hl]; push_cast; ring
+      simp only [intSum, sumMods, modMass, hv, hn, ← ih hl]; push_cast; ring
     | flt r => rw [hv] at h; simp at h
     | str r => rw [hv] at h; simp at h
 
-theorem roundedSum_err (E : Env) (p : ℕ) (hn : NumericMu E p) (l : List Mod) :
+theorem roundedSum_err (E : Env) (p : ℕ) (hn : ∀ i : ℤ, E.mu (.int i) = i) (l : List Mod) :
     |(roundedSum E l p).toRat p - sumMods E l| ≤ halfUlp p := by
   unfold roundedSum
   split
   · rename_i h
-    simp only [Num.toRat, intSum_eq E p hn l h, sub_self, abs_zero]
+    simp only [Num.toRat, intSum_eq E hn l h, sub_self, abs_zero]
     exact halfUlp_nonneg p
   · simp only [Num.toRat]
     exact roundNum_err _ p
@@ -419,7 +419,7 @@ def cnt {α : Type} : Option α → ℕ
   | none => 0
   | some _ => 1
 
-theorem numO_err (E : Env) (p : ℕ) (hn : NumericMu E p) (o : Option (List Mod)) :
+theorem numO_err (E : Env) (p : ℕ) (hn : ∀ i : ℤ, E.mu (.int i) = i) (o : Option (List Mod)) :
     |numO p (o.map fun l => roundedSum E l p) - optSum E o| ≤ (cnt o : ℚ) * halfUlp p := by
   cases o with
   | none => simp [numO, optSum, cnt]
@@ -435,7 +435,7 @@ def cntIntervals : List Interval → ℕ
   | [] => 0
   | iv :: r => cnt iv.mods + cntIntervals r
 
-theorem intervals_err (E : Env) (p : ℕ) (hn : NumericMu E p) (l : List Interval) :
+theorem intervals_err (E : Env) (p : ℕ) (hn : ∀ i : ℤ, E.mu (.int i) = i) (l : List Interval) :
     |outIntervalsL p (l.map fun iv => (iv, iv.mods.map fun ms => roundedSum E ms p)) - sumIntervals E l| ≤
       (cntIntervals l : ℚ) * halfUlp p := by
   induction l with
@@ -460,6 +460,136 @@ def cntIntervalsO : Option (List Interval) → ℕ
 /-- how many numbers the function writes -/
 def written (c : Annotation) (s : Shifts) : ℕ :=
   s.internal.length + cnt c.nterm + cnt c.cterm + cnt c.labile + cnt c.unknown + cntIntervalsO c.intervals
+
+theorem pieceShifts_of_diffs (E : Env) (p : ℕ) (t : ℚ) (pieces : List Annotation) (i : ℕ) (ds : List ℚ)
+    (h : pieceDiffs E pieces = .ok ds) : pieceShifts E p t pieces i = .ok (shiftsFrom p (ds.map (· - t)) i) := by
+  induction pieces generalizing i ds with
+  | nil => simp [pieceDiffs] at h; subst h; rfl
+  | cons q r ih =>
+    simp only [pieceDiffs] at h
+    cases hd : pieceDiff E q with
+    | error e => simp [hd] at h
+    | ok d =>
+      simp only [hd] at h
+      cases hr : pieceDiffs E r with
+      | error e => simp [hr] at h
+      | ok ds' =>
+        simp only [hr, Except.ok.injEq] at h
+        subst h
+        simp only [pieceShifts, hd, ih (i + 1) ds' hr, List.map_cons, shiftsFrom]
+        split <;> rfl
+
+/-- the differences of the pieces of a condensed unlabelled annotation -/
+def diffsOf (E : Env) (c : Annotation) : List ℚ := (List.range c.seq.length).map fun i : ℕ => sumAt E c.internal (i : ℕ)
+
+/-- what the function writes for a condensed, unlabelled annotation -/
+theorem shiftsOf_nolabel (E : Env) (c : Annotation) (p : ℕ) (hiso : c.isotope = none) (hst : c.static = none) :
+    shiftsOf E c p = .ok
+      { internal := shiftsFrom p (diffsOf E c) 0,
+        nterm := c.nterm.map fun l => roundedSum E l p,
+        cterm := c.cterm.map fun l => roundedSum E l p,
+        labile := c.labile.map fun l => roundedSum E l p,
+        unknown := c.unknown.map fun l => roundedSum E l p,
+        intervals := c.intervals.map fun l => l.map fun iv => (iv, iv.mods.map fun ms => roundedSum E ms p) } := by
+  have hd := pieceDiffs_core E c hiso hst
+  have hs := pieceShifts_of_diffs E p (0 + 0) _ 0 _ hd
+  have hmap : ((List.range c.seq.length).map fun i : ℕ => sumAt E c.internal (i : ℕ)).map (· - ((0 : ℚ) + 0)) = diffsOf E c := by
+    unfold diffsOf; simp
+  rw [hmap] at hs
+  simp only [shiftsOf, hiso, termLabelShift, hs, termNum_zero]
+
+/-- **the central bound of C18** for a condensed, unlabelled annotation -/
+theorem outMass_err (E : Env) (c : Annotation) (p : ℕ) (s : Shifts) (hiso : c.isotope = none) (hst : c.static = none)
+    (hr : InRange c) (hn : ∀ i : ℤ, E.mu (.int i) = i) (hp : E.ionP = true) (hs : shiftsOf E c p = .ok s) :
+    |outMass E c s p - (plainMass E c + E.adj)| ≤
+      (written c s : ℚ) * halfUlp p + (droppedNonzero (diffsOf E c) : ℚ) * threshold := by
+  rw [shiftsOf_nolabel E c p hiso hst] at hs
+  simp only [Except.ok.injEq] at hs
+  subst hs
+  have h1 := shiftsFrom_err p (diffsOf E c) 0
+  have hsum : listSum (diffsOf E c) = optInt E c.internal := listSum_sumAt_opt E c hr
+  rw [hsum] at h1
+  have h2 := numO_err E p hn c.nterm
+  have h3 := numO_err E p hn c.cterm
+  have h4 := numO_err E p hn c.labile
+  have h5 := numO_err E p hn c.unknown
+  have h6 : |outIntervals p (c.intervals.map fun l => l.map fun iv => (iv, iv.mods.map fun ms => roundedSum E ms p)) -
+      optIntervals E c.intervals| ≤ (cntIntervalsO c.intervals : ℚ) * halfUlp p := by
+    cases hi : c.intervals with
+    | none => simp [outIntervals, optIntervals, cntIntervalsO]
+    | some l => simp only [Option.map_some, outIntervals, optIntervals, cntIntervalsO]; exact intervals_err E p hn l
+  rw [abs_le] at h1 h2 h3 h4 h5 h6 ⊢
+  simp only [outMass, plainMass, written, hp, if_true]
+  push_cast
+  constructor <;> nlinarith [h1.1, h1.2, h2.1, h2.2, h3.1, h3.2, h4.1, h4.2, h5.1, h5.2, h6.1, h6.2]
+
+/-! ### the range of the keys survives condensation -/
+
+theorem keys_internalAppend (d : List (Int × List Mod)) (i : Int) (ms : List Mod) :
+    ∀ q ∈ internalAppend d i ms, q.1 = i ∨ ∃ q' ∈ d, q'.1 = q.1 := by
+  induction d with
+  | nil => intro q hq; simp [internalAppend] at hq; left; rw [hq]
+  | cons x d ih =>
+    obtain ⟨k, v⟩ := x
+    intro q hq
+    simp only [internalAppend] at hq
+    split at hq
+    · rename_i hk
+      rcases List.mem_cons.mp hq with h | h
+      · left; rw [h]; exact hk
+      · right; exact ⟨q, by simp [h], rfl⟩
+    · rcases List.mem_cons.mp hq with h | h
+      · right; exact ⟨(k, v), by simp, by rw [h]⟩
+      · rcases ih q h with h' | ⟨q', hq', he⟩
+        · left; exact h'
+        · right; exact ⟨q', by simp [hq'], he⟩
+
+def KeysIn (n : ℕ) (cur : Option (List (Int × List Mod))) : Prop := ∀ q ∈ cur.getD [], 0 ≤ q.1 ∧ q.1 < (n : Int)
+
+theorem keysIn_addInternal (n : ℕ) (cur : Option (List (Int × List Mod))) (i : ℕ) (ms : List Mod) (hi : i < n)
+    (h : KeysIn n cur) : KeysIn n (addInternal cur (Int.ofNat i) ms) := by
+  intro q hq
+  cases cur with
+  | none =>
+    simp [addInternal] at hq
+    rw [hq]; simp only [Int.ofNat_eq_natCast]; omega
+  | some d =>
+    simp only [addInternal, Option.getD_some] at hq
+    rcases keys_internalAppend d _ ms q hq with h' | ⟨q', hq', he⟩
+    · rw [h']; simp only [Int.ofNat_eq_natCast]; omega
+    · rw [← he]; exact h q' (by simp [hq'])
+
+theorem keysIn_addInternalAt (n : ℕ) (idx : List ℕ) (cur : Option (List (Int × List Mod))) (ms : List Mod)
+    (hi : ∀ i ∈ idx, i < n) (h : KeysIn n cur) : KeysIn n (addInternalAt cur idx ms) := by
+  induction idx generalizing cur with
+  | nil => exact h
+  | cons j idx ih =>
+    have : addInternalAt cur (j :: idx) ms = addInternalAt (addInternal cur (Int.ofNat j) ms) idx ms := rfl
+    rw [this]
+    exact ih _ (fun i hi' => hi i (by simp [hi'])) (keysIn_addInternal n cur j ms (hi j (by simp)) h)
+
+theorem keysIn_applyResidueRules (seq : List Char) (m : StaticMap) (cur : Option (List (Int × List Mod)))
+    (h : KeysIn seq.length cur) : KeysIn seq.length (applyResidueRules seq cur m) := by
+  induction m generalizing cur with
+  | nil => exact h
+  | cons x m ih =>
+    obtain ⟨k, ms⟩ := x
+    simp only [applyResidueRules]
+    split
+    · exact ih cur h
+    · exact ih _ (keysIn_addInternalAt _ _ cur ms (targetIndices_lt k seq) h)
+
+theorem inRange_condense (a c : Annotation) (hc : condenseStatic a = .ok c) (h : InRange a) : InRange c := by
+  unfold condenseStatic at hc
+  cases hs : a.static with
+  | none => simp [hs] at hc; subst hc; exact h
+  | some rules =>
+    simp only [hs] at hc
+    cases hp : parseStaticMods (some rules) with
+    | error e => simp [hp] at hc
+    | ok m =>
+      simp [hp] at hc; subst hc
+      exact keysIn_applyResidueRules a.seq m a.internal h
 
 end CondenseMass
 end Pept
